@@ -9,7 +9,9 @@ C10-E2E    template-symbolic pipeline on expression skeletons in CLASS EXPRESSIO
            GEOMTRANSFORM, CLUSTER GROUP / FILTER with symbolic attribute names and string operands: the stored string
            equals the committed normal form (MapServer precedence, reviewed by hand), is printed verbatim, and the
            printed text parses back to the same string.
-Precedence / associativity of the real LALR table over *all* operator pairs is C10-PREC (E-LALR, see engine/lalr.py).
+C10-PREC   (E-LALR) bit-blasted BMC of the real parse table on ( 1 OP1 2 OP2 3 ) with both operators symbolic over all 28 binary
+           operator terminals: every pair is accepted, operators of different precedence classes reduce tighter-first, operators of
+           the same class reduce left to right.
 """
 from engine.core import Ob, HEADER, harness, chars, chr_expr, conj
 from checks.tsp_common import Hole, PRELUDE as TSP_PRELUDE
@@ -134,6 +136,28 @@ if one_group(x) and r != x:
 return True
 '''
 
+COMPOSED = '''
+# operands as the other builders really produce them: one or two groups "( t )" / "(t)" / t joined by an arithmetic operator
+def grp(kind, t):
+    return "( " + t + " )" if kind == 0 else ("(" + t + ")" if kind == 1 else t)
+def inner(sel):
+    return "[a] % 2" if sel == 0 else ("( [b] = 1 )" if sel == 1 else "x")
+g1 = grp(k1, inner(t1))
+g2 = grp(k2, inner(t2))
+op = " + " if o == 0 else (" * " if o == 1 else " - ")
+x = (g1 + op + g2) if two else g1
+if not balanced(x):
+    return True
+r = T.expression([tok(x)]).value
+if not (r == x or r == "(" + x + ")"):
+    return False
+if not one_group(r):
+    return False                     # "( a ) + ( b )" starts with "( " and ends with " )" but is not one group: it must be wrapped
+if one_group(x) and r != x:
+    return False
+return True
+'''
+
 E2E_TEXT = '''LAYER
   NAME "x"
   TYPE POINT
@@ -186,7 +210,7 @@ INFO = {
                   "mappyfile.transformer.is_parenthesised_group", "mappyfile.pprint.PrettyPrinter.format_value", "mappyfile.parser.Parser.parse"],
     "bounds": {"operand_len": "2 symbolic code points (32..0x2FFF) for binary builders", "group_operand": "all strings over ( ) a of length <= 8 (quick) / 10 (thorough) and over ( ) a \" ' backslash of length <= 5 / 7",
                "e2e": "11 expressions, 32 holes (attribute names 2 chars, strings 2 code points)"},
-    "outside": ["expression trees beyond the skeletons are covered by induction over the per-rule obligations plus C10-PREC, not by end-to-end runs",
+    "outside": ["expression trees beyond the skeletons are covered by induction (per-rule obligations + C10-PREC on operator pairs), not by end-to-end runs", "NOT / unary minus / function calls inside the precedence family",
                 "back-quoted strings and % runtime variables only as pass-through tokens"],
     "assumptions": ["hole substitution justified by C05's scanner lemmas"],
     "stubs": ["hole lexer"],
@@ -221,6 +245,15 @@ def obligations(tier, seed):
         obs.append(Ob(name=f"C10-BUILD/expression.{'W' if wrapped else 'L'}{L}.K{K}", source=src, pct=900, timeout=1000,
                       meta={"desc": f"expression rule on every balanced operand of length {L} over ( ) a \": result is one group containing the operand verbatim; groups are not re-wrapped",
                             "bounds": {"L": L, "alphabet": "( ) a \""}, "functions": ["MapfileTransformer.expression", "is_parenthesised_group"]}))
+    src = BUILD_PRE + harness("h", [("k1", "int"), ("k2", "int"), ("t1", "int"), ("t2", "int"), ("o", "int"), ("two", "bool")],
+                              "(k1 >= 0) & (k1 < 3) & (k2 >= 0) & (k2 < 3) & (t1 >= 0) & (t1 < 3) & (t2 >= 0) & (t2 < 3) & (o >= 0) & (o < 3)", COMPOSED)
+    obs.append(Ob(name="C10-BUILD/expression.composed", source=src, pct=600, timeout=700,
+                  meta={"desc": "expression rule on operands shaped like the builders' own output: one or two groups ( t ) / (t) / t joined by + * -: the result is one group containing the operand",
+                        "functions": ["MapfileTransformer.expression", "is_parenthesised_group"]}))
+    # precedence and associativity of the real LALR table over every pair of binary operator spellings (E-LALR)
+    obs.append(Ob(name="C10-PREC/pairs", kind="z3", z3_call=("engine.lalr", "prec_query", {}), timeout=1800,
+                  meta={"desc": "( 1 OP1 2 OP2 3 ): OP1, OP2 symbolic over all 28 binary operator terminals (OR ||, AND &&, 19 comparison spellings, + -, * / ^): accepted; the tighter "
+                                "class reduces first; equal classes reduce left to right", "functions": ["LALR table of mapfile.lark: or_test / and_test / comparison / sum / product"]}))
     # end to end
     holes = []
     import re
